@@ -117,27 +117,29 @@ Definition out_of_range_linear (mn mx : option pv) (v : pv) : res bool :=
   if lo then Ok true
   else match mx with Some m => pv_gtb v m | None => Ok false end.
 
+(* the decision on parsed values (at least one of mn, mx is Some) *)
+Definition range_decide (itype : str) (mn mx value : option pv) (in_range : bool) : res bool :=
+  do out <-
+    match value with
+    | None => Ok false
+    | Some v =>
+      if is_linear itype then out_of_range_linear mn mx v
+      else if is_time itype then
+        match mn, mx with
+        | Some a, Some b =>
+          do rev <- pv_gtb a b ;;
+          if rev then (do x <- pv_ltb v a ;; do y <- pv_gtb v b ;; Ok (x && y))
+          else out_of_range_linear mn mx v
+        | _, _ => out_of_range_linear mn mx v
+        end
+      else Ok false
+    end ;;
+  Ok (if in_range then negb out else out).
+
 Definition match_range (itype : str) (mn_s mx_s value_s : option str) (in_range : bool) : res bool :=
   do mn <- parse_opt itype mn_s ;;
   do mx <- parse_opt itype mx_s ;;
   match mn, mx with
   | None, None => Ok false
-  | _, _ =>
-    do value <- parse_opt itype value_s ;;
-    do out <-
-      match value with
-      | None => Ok false
-      | Some v =>
-        if is_linear itype then out_of_range_linear mn mx v
-        else if is_time itype then
-          match mn, mx with
-          | Some a, Some b =>
-            do rev <- pv_gtb a b ;;
-            if rev then (do x <- pv_ltb v a ;; do y <- pv_gtb v b ;; Ok (x && y))
-            else out_of_range_linear mn mx v
-          | _, _ => out_of_range_linear mn mx v
-          end
-        else Ok false
-      end ;;
-    Ok (if in_range then negb out else out)
+  | _, _ => do value <- parse_opt itype value_s ;; range_decide itype mn mx value in_range
   end.
